@@ -222,6 +222,15 @@ FIXED_CLAUSE_SETS = [
     'finishcode A, B, E;\nparser { case { ("a" /b+/ "c") -> { finish A; } /a?d/ -> { finish B; } else -> { finish E; } } }',
     'finishcode A, B, E;\nparser { greedy case { /x+/, /y+/ -> { "!"; finish A; } prio 3 "xx", "yy" -> { "!"; finish B; } else -> { finish E; } } }',
     'finishcode A, B;\nparser { case { /a+b/ -> { "0"; finish A; } /a+c/ -> { "1"; finish B; } } }',
+    # priorities of action-only / empty clauses against clauses with a consuming body
+    'finishcode A, B;\nparser { greedy case { prio 1 /[a-z]+/ -> { "!"; finish A; } prio 2 "abc" -> { finish B; } } }',
+    'finishcode A, B, C;\nparser { greedy case { prio 1 /[a-z]+/ -> { "!"; finish A; } prio 3 "abd" -> { finish C; } prio 2 "abc" -> { } } ";"; finish B; }',
+    'finishcode A, B;\nparser { greedy case { prio 2 /[0-9]+/ -> { "!"; finish A; } prio 5 "42" -> { finish B; } } }',
+    'finishcode A, B;\nparser { greedy case { prio 1 /[a-z]+/ -> { "!"; finish A; } prio 2 "abc" -> { } } ";"; finish B; }',
+    'finishcode A, B;\nparser { greedy case { prio 3 "7", "77" -> { } prio 2 /[0-9]+/ -> { "x"; finish A; } } "y"; finish B; }',
+    # three clauses finishing on the same string, the two highest tie: must be rejected (C09), never resolved silently
+    'finishcode A, B, C;\nparser { greedy case { /[a-z]+/ -> { "!"; finish A; } prio 1 { "if" -> { "!"; finish B; } /i[fs]/ -> { "!"; finish C; } } } }',
+    'finishcode A, B, C;\nparser { greedy case { /[0-9]+/ -> { "!"; finish A; } prio 2 "77" -> { "!"; finish B; } prio 2 /7[67]/ -> { "!"; finish C; } } }',
 ]
 
 
